@@ -13,7 +13,14 @@ import (
 // in the order it received them - must equal what a later probe is handed.
 func VerifC01Par() {
 	s := newStepWorld(stepShape{mods: vModVikja | vModOdal, preset: 0, noFree: true})
+	// the newcomer is a fresh connection joining A, or a member of A (a2) that switches to session B while A
+	// changes: what it holds afterwards is B's state, and nothing of A's may reach it after B's join answer
 	p1 := s.w.newConn()
+	target := s.a1.sid
+	switcher := verifnd.Bool()
+	if switcher {
+		p1, target = s.a2, s.b0.sid
+	}
 	var joinMsgs []hwebsocket.Msg
 	what := verifnd.Choice(4)
 	whatName := "entity_delete"
@@ -37,8 +44,15 @@ func VerifC01Par() {
 		whatName = "departure"
 		act = func() { s.a0.rh.HandleDisconnect(nil) }
 	}
-	verifnd.Par(func() { joinMsgs = p1.join(s.a1.sid, 9) }, act)
+	verifnd.Par(func() { joinMsgs = p1.join(target, 9) }, act)
 	verifnd.Assert(p1.pid != 0, "setup.par.joined")
+	if switcher {
+		whatName += "_while_switching_away"
+		// a client discards what it was sent before the answer to its join: that belonged to the session it left
+		for len(joinMsgs) > 0 && typeNum(joinMsgs[0]) != 4 {
+			joinMsgs = joinMsgs[1:]
+		}
+	}
 	// p1's stream in arrival order: join answer + state messages, then whatever was broadcast to it (join drained
 	// its queue at the end of the join; later arrivals are still queued)
 	all := append(joinMsgs, p1.drain()...)
@@ -74,7 +88,7 @@ func VerifC01Par() {
 		}
 	}
 	s.w.drainAll()
-	_, handed := s.probe(s.a1.sid)
+	_, handed := s.probe(target)
 	for _, m := range p1.drain() {
 		view.apply(m, 0)
 	}
